@@ -11,17 +11,21 @@ Definition max_list (l : list Z) : Z := fold_left Z.max l 1.
 Definition max_h (comps : list (Z * Z)) : Z := max_list (map fst comps).
 Definition max_v (comps : list (Z * Z)) : Z := max_list (map snd comps).
 
-(* parseSOF:  comp.width = DivCeil(width*H, maxH*8) ; comp.height = DivCeil(height*V, maxV*8)
-   (in blocks) ; len(comp.data) = width*height*64 *)
-Definition comp_wb (width : Z) (comps : list (Z * Z)) (hv : Z * Z) : Z :=
-  div_ceil (width * fst hv) (max_h comps * 8).
-Definition comp_hb (height : Z) (comps : list (Z * Z)) (hv : Z * Z) : Z :=
-  div_ceil (height * snd hv) (max_v comps * 8).
-Definition comp_len (width height : Z) (comps : list (Z * Z)) (hv : Z * Z) : Z :=
-  comp_wb width comps hv * comp_hb height comps hv * 64.
-
 Definition mcu_cols (width : Z) (comps : list (Z * Z)) : Z := div_ceil width (max_h comps * 8).
 Definition mcu_rows (height : Z) (comps : list (Z * Z)) : Z := div_ceil height (max_v comps * 8).
+
+(* parseSOF (after fix F16):  comp.width = mcuCols * comp.H ; comp.height = mcuRows * comp.V
+   (in blocks: the grid the scan delivers, padding blocks included) ;
+   len(comp.data) = comp.width*comp.height*64.
+   Before the fix the grid was DivCeil(width*H, maxH*8) x DivCeil(height*V, maxV*8), smaller
+   than the scan's grid when the luma block count per row is odd: witness 17x9 4:2:0, where
+   scan block (3,0) landed on the cell of block (0,1). *)
+Definition comp_wb (width : Z) (comps : list (Z * Z)) (hv : Z * Z) : Z :=
+  mcu_cols width comps * fst hv.
+Definition comp_hb (height : Z) (comps : list (Z * Z)) (hv : Z * Z) : Z :=
+  mcu_rows height comps * snd hv.
+Definition comp_len (width height : Z) (comps : list (Z * Z)) (hv : Z * Z) : Z :=
+  comp_wb width comps hv * comp_hb height comps hv * 64.
 
 (* decodeBlock:  blockOffset := (blockY*comp.width + blockX) * 64 ;
    if blockOffset+63 >= len(comp.data) { skip } *)
